@@ -290,6 +290,11 @@ def addToBucket (cur : TBucket) (scope : String) (t : Testament) : TBucket :=
   if scope == "destroyed" then { cur with destroyed := cur.destroyed ++ [t] }
   else { cur with detached := cur.detached ++ [t] }
 
+/-- the caller id `c` (a session id) is that of an attached client
+    (`_, ok := r.clients[caller]` in `sessionAddTestament`) -/
+def attachedCaller (r : Realm) (c : Nat) : Bool :=
+  decide (sidBase ≤ c) && r.clients.any (fun s => s.key == c - sidBase)
+
 theorem metaProc_addTestament (r : Realm) (req : Nat) (details : Dict) (args : List WVal) (kw : Dict) :
     metaProc r MetaProcSessionAddTestament req details args kw =
       match callerOf details, args with
@@ -297,6 +302,7 @@ theorem metaProc_addTestament (r : Realm) (req : Nat) (details : Dict) (args : L
         match t.asString, a.asList, k.asDict with
         | some topic, some targs, some tkw =>
           if scopeOf kw != "destroyed" && scopeOf kw != "detached" then (mErr req ErrInvalidArgument, r)
+          else if !attachedCaller r c then (mYield req [], r)
           else
             (mYield req [],
              { r with testaments := (r.testaments.filter (fun x => x.1 != c - sidBase)) ++
@@ -309,6 +315,37 @@ theorem metaProc_addTestament (r : Realm) (req : Nat) (details : Dict) (args : L
         | _, _, _ => (mErr req ErrInvalidArgument, r)
       | _, _ => (mErr req ErrInvalidArgument, r) := by
   meta_branch
+  rfl
+
+theorem attachedCaller_false {r : Realm} {c : Nat} (h : c < sidBase ∨ ∀ s ∈ r.clients, s.key ≠ c - sidBase) :
+    attachedCaller r c = false := by
+  unfold attachedCaller
+  rcases h with h | h
+  · have : decide (sidBase ≤ c) = false := by simpa using h
+    rw [this]; rfl
+  · have : r.clients.any (fun s => s.key == c - sidBase) = false := by
+      rw [List.any_eq_false]
+      intro s hs'
+      simpa using h s hs'
+    rw [this]; simp
+
+theorem attachedCaller_true {r : Realm} {c : Nat} (h : attachedCaller r c = true) :
+    sidBase ≤ c ∧ ∃ s ∈ r.clients, s.key = c - sidBase := by
+  unfold attachedCaller at h
+  simpa using h
+
+/-- `add_testament` by a caller that is not an attached client (its id is below the session-id base,
+    or names no session in `clients`): the same empty YIELD, and the state is UNCHANGED -/
+theorem metaProc_addTestament_unattached (r : Realm) (req c : Nat) (details : Dict) (kw : Dict) (topic : String)
+    (targs : List WVal) (tkw : Dict) (rest : List WVal) (hc : callerOf details = some c)
+    (hs : scopeOf kw = "destroyed" ∨ scopeOf kw = "detached")
+    (hna : c < sidBase ∨ ∀ s ∈ r.clients, s.key ≠ c - sidBase) :
+    metaProc r MetaProcSessionAddTestament req details (.str topic :: .list targs :: .dict tkw :: rest) kw =
+      (mYield req [], r) := by
+  have hsc : (scopeOf kw != "destroyed" && scopeOf kw != "detached") = false := by
+    rcases hs with h | h <;> simp [h]
+  rw [metaProc_addTestament, hc]
+  simp only [hsc, attachedCaller_false hna, Bool.false_eq_true, if_false, Bool.not_false, if_true]
   rfl
 
 /-- the bucket with the scope emptied -/
